@@ -337,12 +337,30 @@ def run_anim_case(case, env, res, tmpdir, state):
     set_terminal(env, 60, 30, *case["cell"])
     state["n"] += 1
     path = os.path.join(tmpdir, "c03a-%d.%s" % (state["n"], case["fmt"].lower()))
-    make_anim_file(rnd, path, case["src"][0], case["src"][1], case["frames"], case["fmt"])
+    if case.get("disposal") is not None:
+        # a GIF whose frames are cut-outs: palette index 0 is transparent, every frame has
+        # its opaque block elsewhere and is disposed of as given before the next one
+        sw, sh = case["src"]
+        frames = []
+        for i in range(case["frames"]):
+            fr = Image.new("P", (sw, sh), 0)
+            fr.putpalette([0, 0, 0, 255, 0, 0, 0, 255, 0, 0, 0, 255] + [0] * (252 * 3))
+            x0 = (i * max(1, sw // case["frames"])) % sw
+            for y in range(sh // 4, max(sh // 4 + 1, 3 * sh // 4)):
+                for x in range(x0, min(sw, x0 + max(1, sw // 3))):
+                    fr.putpixel((x, y), 1 + (i + x + y) % 3)
+            frames.append(fr)
+        frames[0].save(path, "GIF", save_all=True, append_images=frames[1:], transparency=0, disposal=case["disposal"], duration=100, loop=0)
+    else:
+        make_anim_file(rnd, path, case["src"][0], case["src"][1], case["frames"], case["fmt"])
     with open(path, "rb") as f:
         file_bytes = f.read()
     W, H = case["size"]
     if case["source"] == "file":
         image = ITerm2Image.from_file(path, width=W, height=H)
+    elif case["source"] == "memory":
+        # no file to read from: the animation has to be encoded anew
+        image = ITerm2Image(Image.open(io.BytesIO(file_bytes)), width=W, height=H)
     else:
         image = ITerm2Image(Image.open(path), width=W, height=H)
     out = format(image, "1.1+A")
@@ -357,7 +375,20 @@ def run_anim_case(case, env, res, tmpdir, state):
                 errs.append(("size-key", keys.get("size"), len(data)))
             if (keys.get("width"), keys.get("height")) != (str(W), str(H)):
                 errs.append(("cells", keys.get("width"), keys.get("height")))
-            if data != file_bytes:
+            if case["source"] == "memory":
+                # (lossless formats only) the payload must decode to the source's frames
+                src_im, got_im = Image.open(io.BytesIO(file_bytes)), Image.open(io.BytesIO(data))
+                if getattr(got_im, "n_frames", 1) != case["frames"]:
+                    errs.append(("anim-frame-count", getattr(got_im, "n_frames", 1), case["frames"]))
+                else:
+                    for k in range(case["frames"]):
+                        src_im.seek(k)
+                        got_im.seek(k)
+                        if src_im.convert("RGBA").tobytes() != got_im.convert("RGBA").tobytes():
+                            errs.append(("anim-frame-pixels", "frame %d of the re-encoded %s animation differs from the source's (disposal %r)" % (k, case["fmt"], case.get("disposal"))))
+                            break
+                    res.count("frames of re-encoded native animations compared", case["frames"])
+            elif data != file_bytes:
                 errs.append(("anim-payload-not-file-bytes", len(data), len(file_bytes)))
         res.count("graphics commands parsed", len(items))
         res.count("native animation payloads")
@@ -381,6 +412,10 @@ def gen_random(rnd, persona):
         src = [W * cw, H * ch]
         if method == "whole" and rnd.random() < 0.4:
             src = [rnd.randint(1, max(1, W * cw)), rnd.randint(1, max(1, H * ch))]
+    elif rnd.random() < 0.25:
+        # one dimension already right, the other not (square and non-square sources)
+        src = rnd.choice([[W * cw, W * cw], [H * ch, H * ch], [W * cw, rnd.randint(1, 120)], [rnd.randint(1, 120), H * ch]])
+        src = [min(max(v, 1), 400) for v in src]
     else:
         src = [rnd.randint(1, 120), rnd.randint(1, 120)]
     case = dict(
@@ -464,6 +499,11 @@ def gen_sweep(persona):
                             if style == "iterm2":
                                 c["rff"] = (j % 2 == 0)
                             yield c
+    # sources that agree with the render's pixel size in one dimension only
+    for style in ("kitty", "iterm2"):
+        for method in ("whole", "lines"):
+            for cell, size, src in (([10, 16], [4, 1], [40, 40]), ([10, 7], [6, 3], [60, 60]), ([4, 8], [2, 3], [24, 24]), ([4, 8], [5, 3], [20, 30]), ([4, 8], [5, 3], [30, 24]), ([1, 2], [1, 1], [1, 1]), ([1, 2], [2, 2], [2, 2])):
+                yield dict(kind="still", style=style, cell=cell, size=size, method=method, src=src, mode="RGB", alpha="#", source="pil", img_seed=src[0] * 13 + size[1], pattern="noise", rff=False)
     j = 0
     for style in ("kitty", "iterm2"):
         for method in ("whole", "lines"):
@@ -473,6 +513,10 @@ def gen_sweep(persona):
                         for alpha in ("#", ""):
                             j += 1
                             yield dict(kind="still", style=style, cell=[4, 8], size=[3, 2], method=method, src=[12, 16], mode="RGB", alpha=alpha, source=source, file_fmt=fmt, frames=4, visits=visits, render_visits=j % 3 != 0, img_seed=7000 + j)
+    for frames in (2, 3, 4):
+        yield dict(kind="anim", cell=[4, 8], size=[3, 2], src=[12, 8], frames=frames, fmt="GIF", source="memory", img_seed=frames * 7)
+        for disposal in (0, 1, 2, 3):
+            yield dict(kind="anim", cell=[4, 8], size=[3, 2], src=[12, 8], frames=frames, fmt="GIF", source="memory", disposal=disposal, img_seed=frames * 11 + disposal)
     for fmt in ("GIF", "WEBP", "PNG"):
         for source in ("file", "pilfile"):
             for frames in (2, 3):
